@@ -3,6 +3,8 @@ Framework self-test.
   ./check selftest --setup     cheap: imports, interpreter, edgegraph location (MANIFEST.setup_cmd)
   ./check selftest             validates MANIFEST.json and every evidence file against the schemas
                                (jsonschema from the tooling venv)
+  ./check selftest findings    replays every recorded counterexample under findings/: repaired ones must not
+                               reproduce, the open known finding must
   ./check selftest seeds C01 C02 ...   runs the quick tier for VERIF_SEED in 0..3 and asserts equal
                                state / transition counts and exit 0
 """
@@ -22,6 +24,30 @@ def main(argv):
         os.makedirs(os.path.join(ROOT, "evidence"), exist_ok=True)
         print("setup ok:", sys.version.split()[0], edgegraph.__file__)
         return 0
+    if argv and argv[0] == "findings":
+        # regression use of the recorded counterexamples: every replay under findings/ belongs to a
+        # defect that was repaired (must no longer reproduce) except those of open known findings
+        import glob
+        import importlib
+        known = json.load(open(os.path.join(ROOT, "known_findings.json")))
+        import re
+        rc = 0
+        for f in sorted(glob.glob(os.path.join(ROOT, "findings", "*", "*.json"))):
+            rec = json.load(open(f))
+            mod = importlib.import_module(f"egmc.props.{rec['property'].lower()}")
+            try:
+                got = bool(mod.replay(rec))
+            except Exception as e:  # noqa: BLE001
+                got = f"replay crashed: {type(e).__name__}: {e}"
+            is_open = any(k["property"] == rec["property"] and (
+                k.get("fingerprint") == rec.get("fingerprint") or
+                ("fingerprint_regex" in k and re.fullmatch(k["fingerprint_regex"], rec.get("fingerprint", ""))))
+                for k in known.get("open", []))
+            ok = (got is True) if is_open else (got is False)
+            print(("ok  " if ok else "BAD ") + os.path.relpath(f, ROOT),
+                  "open finding, reproduces" if is_open and ok else ("repaired, no longer reproduces" if ok else got))
+            rc |= 0 if ok else 1
+        return rc
     if argv and argv[0] == "seeds":
         rc = 0
         for prop in argv[1:]:
